@@ -35,6 +35,11 @@ RULE = ("rows of the per-class argument cross products (valid and invalid spelli
         "or an accepted layer whose projection moved the hostile weights; distinct = (class, outcome, "
         "argument that differs from the baseline) resp. (layer, config-class signature).")
 ASSUMPTIONS = [
+    "the arguments the constructors only store (units, num_projection_iterations, split_outputs, normalization_order, "
+    "the constraint arguments of Lattice.__init__) range over small domains of ints (positive, 0, negative), a float, "
+    "None (np.inf / -np.inf / 'euclidean' / 'fro' / a string / a list for normalization_order): their FIRST USE (build, "
+    "first projection) is observed on the real layers by the layer stream; the kernel-checked tables tabulate the "
+    "CONSTRUCTOR outcome (KroneckerFactoredLatticeBuild: constructor + build on the layer's own input shape)",
     "hyper-parameter values range over the finite spellings of translate_accept.py (ints, floats, the "
     "strings the code compares against in exact / other case, lists and tuples nested <= 2); other "
     "Python objects (numpy arrays, tensors, bools, custom classes) are exercised only where listed",
@@ -43,7 +48,10 @@ ASSUMPTIONS = [
     "(sizes in evidence.notes); the driver comparison of this run samples the same products with the run's seed",
 ]
 TRUSTED_EXTRA = ["harness/translate_accept.py: the encoding of Python values as Tfl.Verify.Val terms / wire tokens "
-                 "(lower-cased string tokens with an exact-case flag)"]
+                 "(lower-cased string tokens with an exact-case flag)",
+                 "harness/translate_accept.py (_FEAT_FACTS, pm_codes): premade_lib.verify_config is modelled on a TYPED "
+                 "description of the model config — each FeatureConfig / lattices / output_initialization value is classified "
+                 "in Python into the facts verify_config reads; the classification itself is not modelled in Lean"]
 
 
 def regenerate():
@@ -62,9 +70,63 @@ def _has_single_tuple(cfg, keys):
   return False
 
 
-def predicate(layer, cfg, stage, exc, msg):
+def _bad_units(cfg):
+  u = cfg.get("units", 1)
+  return isinstance(u, bool) or not isinstance(u, int) or u < 1
+
+
+def _non_int(cfg, keys):
+  return any(k in cfg and (isinstance(cfg[k], bool) or not isinstance(cfg[k], int)) for k in keys)
+
+
+_EMPTY_TUPLE_KEYS = ("edgeworth_trusts", "trapezoid_trusts", "monotonic_dominances", "range_dominances", "joint_monotonicities")
+_STAGES = ["ctor", "build", "project", "regularizer", "eval", "nonfinite", "ok"]
+
+
+def _control_passes(layer, cfg, fix, stage, table):
+  """Attribution of a late failure to ONE stored argument: the SAME configuration with that argument at a valid value
+  (`fix`) must get past `stage` (or be rejected with a ValueError). The first use of a bad `units` surfaces through many
+  TensorFlow messages (ConcatOp, Incompatible shapes, num_split, Dimension value, np.tile ...): the control run is the
+  discriminating test, not the message text."""
+  import tensorflow as tf
+  c2 = dict(cfg)
+  c2.update(fix)
+  if table:
+    spec = [sp for sp in TA.specs() if sp.name == layer]
+    if not spec:
+      return False
+    return TA.evaluate(spec[0], c2)[0] in ("accept", "ValueError")
+  st, e, _ = exercise("LatticeValid" if layer == "Lattice" else layer, c2, 0)
+  if e is not None and isinstance(e, ValueError) and not isinstance(e, tf.errors.OpError):
+    return True
+  return _STAGES.index(st) > _STAGES.index(stage)
+
+
+def predicate(layer, cfg, stage, exc, msg, table=False):
   """A stable class of the configuration that explains the failure (key of known findings)."""
   m = msg or ""
+  # ---- arguments that the constructors only store (audit row 5): the predicate needs the offending VALUE in the
+  # configuration, the stage / exception class of its first use, and a passing CONTROL with that one value repaired
+  if layer == "Lattice" and stage == "ctor" and exc == "IndexError" and "tuple index out of range" in m and \
+      any(isinstance(cfg.get(k), tuple) and not cfg.get(k) for k in _EMPTY_TUPLE_KEYS):
+    return "empty_tuple_constraint"
+  if layer in ("Lattice", "PWLCalibration", "Linear", "CategoricalCalibration", "CategoricalCalibrationFull") and \
+      _bad_units(cfg) and stage in ("ctor", "build", "project", "regularizer", "eval") and \
+      exc in ("TypeError", "InvalidArgumentError", "AssertionError", "ValueError") and \
+      _control_passes(layer, cfg, dict(units=1), stage, table):
+    return "units_not_positive_int"
+  if layer in ("Lattice", "PWLCalibration") and _non_int(cfg, ["num_projection_iterations"]) and stage == "project" and \
+      exc in ("TypeError", "ValueError") and _control_passes(layer, cfg, dict(num_projection_iterations=8), stage, table):
+    return "iterations_not_int"
+  if layer in ("Linear", "LinearConstraints") and stage == "project" and \
+      ((exc == "ValueError" and "'ord' must be a supported vector norm" in m) or
+       (exc == "TypeError" and "'<=' not supported between instances of 'list' and 'int'" in m)):
+    return "normalization_order_unsupported"
+  if layer == "KroneckerFactoredLattice" and stage == "build" and exc == "TypeError" and \
+      _non_int(cfg, ["lattice_sizes", "units", "num_terms"]) and \
+      _control_passes(layer, cfg, {k: (2 if k != "units" else 1) for k in ("lattice_sizes", "units", "num_terms")
+                                   if _non_int(cfg, [k])}, stage, table):
+    return "kfl_non_integer_size"
   if layer in ("LatticeConstraints",) and exc == "TypeError" and _has_single_tuple(
       cfg, ["edgeworth_trusts", "trapezoid_trusts", "monotonic_dominances", "range_dominances", "joint_monotonicities"]):
     return "single_tuple"
@@ -115,7 +177,7 @@ def exc_msg(e):
 
 
 def fail(ctx, layer, stage, exc, cfg, msg, extra=None):
-  key = dict(layer=layer, stage=stage, exc=exc, pred=predicate(layer, cfg, stage, exc, msg))
+  key = dict(layer=layer, stage=stage, exc=exc, pred=predicate(layer, cfg, stage, exc, msg, table=(extra == "table")))
   tag = "oracle:%s/%s/%s/%s" % (layer, stage, exc, key["pred"])
   ctx.count(tag)
   if ctx.dist[tag] > 4:
@@ -283,11 +345,13 @@ def _tmpl_uni(n):
   return [None, None, [0] * n, ["valley"] + [0] * (n - 1), [0] * (n - 1) + [-1], [1] * n]
 
 
-L_TRUSTS = [None, None, [(0, 1, 1)], (0, 1, "positive"), [(0, 1, -1)], [(0, 1, "negative")], [[0, 1, 1]], [(1, 0, 1)],
+H_UNITS = [1, 1, 1, 2, 2, 0, -1, 2.0, None]
+H_ITERS = [-1, 2.5, None]
+L_TRUSTS = [None, None, (), [(0, 1, 1)], (0, 1, "positive"), [(0, 1, -1)], [(0, 1, "negative")], [[0, 1, 1]], [(1, 0, 1)],
             [(0, 1, 1), (1, 0, 1)], [(0, 0, 1)], [(0, 1, 2)], [(0, 1, 1), (0, 1, 1)], [(0, 1, 1), (0, 2, -1)], [(0, 5, 1)]]
-L_DOMS = [None, None, [(0, 1)], (0, 1), [(1, 0)], [(0, 1), (1, 0)], [(0, 5)], [[0, 1]],
+L_DOMS = [None, None, (), [(0, 1)], (0, 1), [(1, 0)], [(0, 1), (1, 0)], [(0, 5)], [[0, 1]],
           [(0, 1), (1, 2), (2, 0)], [(0, 0)], [(0, 1), (1, 1)], [(0, 1), (1, 2)]]
-L_JM = [None, None, [(0, 1)], (0, 1), [(0, 9)]]
+L_JM = [None, None, [(0, 1)], (0, 1), [(0, 9)], (), [(0, 0)], [(0, 1), (1, 1)]]
 L_JU = [None, None, None, ([0, 1], "valley"), [([0], "peak")], [([0, 1], "peak")], [([0, 0], "peak")], [([0], "up")],
         [([7], "peak")], [([1, 2], "valley")], [([0], "valley"), ([1, 0, 1], "peak")], ([0, 9], "peak")]
 L_BOUNDS = [(None, None), (None, None), (0.0, 1.0), (-1.0, 2.0), (1.0, 0.0), (0.0, 0.0), (None, 1.0), (0.0, None), (0, 1)]
@@ -308,12 +372,12 @@ def gen_lattice(rng):
       reg = (reg[0], amt(reg[1]), amt(reg[2]))
     else:
       reg = [(r[0], amt(r[1]), amt(r[2])) for r in reg]
-  return dict(lattice_sizes=sizes, units=rng.choice([1, 1, 2]), monotonicities=rng.choice(_tmpl_mono(n)),
+  return dict(lattice_sizes=sizes, units=rng.choice(H_UNITS), monotonicities=rng.choice(_tmpl_mono(n)),
               unimodalities=rng.choice(_tmpl_uni(n)), edgeworth_trusts=rng.choice(L_TRUSTS),
               trapezoid_trusts=rng.choice(L_TRUSTS[:8]), monotonic_dominances=rng.choice(L_DOMS),
-              range_dominances=rng.choice(L_DOMS[:5]), joint_monotonicities=rng.choice(L_JM),
+              range_dominances=rng.choice(L_DOMS[:6] + [[(0, 0)], [(1, 1)]]), joint_monotonicities=rng.choice(L_JM),
               joint_unimodalities=rng.choice(L_JU), output_min=b[0], output_max=b[1],
-              num_projection_iterations=rng.choice([10, 10, 1, 0]), monotonic_at_every_step=rng.choice([True, False]),
+              num_projection_iterations=rng.choice([10, 10, 1, 0] + H_ITERS), monotonic_at_every_step=rng.choice([True, False]),
               clip_inputs=rng.choice([True, False]), interpolation=rng.choice(["hypercube", "simplex", "simplex", "cubic"]),
               kernel_initializer=rng.choice(["random_uniform_or_linear_initializer", "linear_initializer",
                                              "random_monotonic_initializer", "zeros"]),
@@ -345,6 +409,12 @@ def gen_lattice_valid(rng):
       c["range_dominances"] = [(1, 0)]
     elif k < 0.9:
       c["joint_monotonicities"] = rng.choice([[(0, 1)], (0, 1)])
+  # the stored arguments at hostile values in an otherwise valid layer (F-C16-af, F-C16-ag): first use at build /
+  # in the first projection that iterates
+  if rng.random() < 0.12:
+    c["units"] = rng.choice([0, 2.0, None])
+  if rng.random() < 0.15:
+    c["num_projection_iterations"] = rng.choice(H_ITERS)
   return c
 
 
@@ -352,7 +422,7 @@ def gen_pwl(rng):
   b = rng.choice(L_BOUNDS)
   return dict(input_keypoints=rng.choice([[0.0, 1.0], [0.0, 1.0, 3.0], [0.0, 0.5, 1.0, 4.0], [0.0, 0.0, 1.0], [1.0, 0.0], [0.0],
                                           [0, 1, 2], (0.0, 1.0, 2.0), "nparray"]),
-              units=rng.choice([1, 1, 2]), output_min=b[0], output_max=b[1], clamp_min=rng.choice([False, True]),
+              units=rng.choice(H_UNITS), output_min=b[0], output_max=b[1], clamp_min=rng.choice([False, True]),
               clamp_max=rng.choice([False, True]),
               monotonicity=rng.choice(["none", 0, 1, -1, "increasing", "decreasing", 2, None]),
               convexity=rng.choice(["none", "none", 0, "convex", -1, 1, "concave"]), is_cyclic=rng.choice([False, False, True]),
@@ -360,8 +430,9 @@ def gen_pwl(rng):
               kernel_regularizer=rng.choice([None, None, ("hessian", 0.1, 0.2), [("laplacian", 0.1, 0.0), ("wrinkle", 0.0, 0.1)],
                                              ("unknown", 0.1, 0.1)]),
               impute_missing=rng.choice([False, False, True]), missing_input_value=rng.choice([None, None, -1.0]),
-              missing_output_value=rng.choice([None, None, 0.5]), num_projection_iterations=rng.choice([8, 8, 1, 0]),
-              split_outputs=rng.choice([False, False, True]),
+              missing_output_value=rng.choice([None, None, 0.5]),
+              num_projection_iterations=rng.choice([8, 8, 1, 0] + H_ITERS),
+              split_outputs=rng.choice([False, False, True, None, 1]),
               input_keypoints_type=rng.choice(["fixed", "fixed", "learned_interior", "other"]),
               dtype=rng.choice(["float32", "float32", "float64"]))
 
@@ -371,29 +442,30 @@ def gen_linear(rng):
   def bounds(v):
     return rng.choice([None, None, [v] * n, [v] + [None] * (n - 1), [v] + ["none"] * (n - 1), [int(v)] * n, [0.5] * n, tuple([v] * n),
                        [v] * (n + 1), [v] * (n - 1), [1.0 - v] * n])
-  return dict(num_input_dims=n, units=rng.choice([1, 1, 2]),
+  return dict(num_input_dims=n, units=rng.choice(H_UNITS),
               monotonicities=rng.choice([None, 1, "increasing", "decreasing", [1] * n, [1, 0, -1][:n], [-1] * n, [1] * (n + 1),
                                          tuple([1] * n), "peak", [None] * n, [None, None, 1][:n]]),
               monotonic_dominances=rng.choice(L_DOMS), range_dominances=rng.choice(L_DOMS[:5] + L_DOMS[8:]),
               input_min=bounds(0.0), input_max=bounds(1.0), use_bias=rng.choice([True, False]),
-              normalization_order=rng.choice([None, None, 1, 2, "inf", 0.5]),
+              normalization_order=rng.choice([None, None, 1, 2, "inf", 0.5, 0, 3, -1, "-inf", "fro", "euclidean", "1", [1]]),
               dtype=rng.choice(["float32", "float32", "float64"]))
 
 
 def gen_categorical(rng):
   b = rng.choice(L_BOUNDS)
-  return dict(num_buckets=rng.choice([1, 2, 3, 4, 0, -1]), units=rng.choice([1, 1, 2]), output_min=b[0], output_max=b[1],
+  return dict(num_buckets=rng.choice([1, 2, 3, 4, 0, -1]), units=rng.choice(H_UNITS), output_min=b[0], output_max=b[1],
               monotonicities=rng.choice([None, None, [(0, 1)], [[0, 1]], [(0, 1), (1, 2)], [(0, 1), (1, 0)],
                                          [(0, 1), (1, 2), (2, 1)], [(0, 1), (2, 3), (3, 2)], [(0, 0)], [(0, 7)], (0, 1), [(0, 1, 2)],
                                          [(0, 1), (0, 2), (1, 3), (2, 3)], [(0, 1), (1, 2), (2, 0)], [(0, 1), (1, 1)], [(2, 1), (1, 0)],
                                          [(0, 1.0)], [(0, 1.5)], [(0.0, 1)], [(0, 1), (1, 2.0)], [(False, True)], [(None, 1)]]),
               kernel_initializer=rng.choice(["uniform", "constant", "zeros"]), default_input_value=rng.choice([None, -1]),
-              split_outputs=rng.choice([False, False, True]), dtype=rng.choice(["float32", "float32", "float64"]))
+              split_outputs=rng.choice([False, False, True, None, 1]), dtype=rng.choice(["float32", "float32", "float64"]))
 
 
 def gen_kfl(rng):
   b = rng.choice(L_BOUNDS)
-  return dict(lattice_sizes=rng.choice([2, 2, 3, 1, 0]), units=rng.choice([1, 1, 2, 0]), num_terms=rng.choice([1, 2, 2, 0]),
+  return dict(lattice_sizes=rng.choice([2, 2, 3, 1, 0, 2.0, 2.5, None]), units=rng.choice([1, 1, 2, 0, 2.0, None]),
+              num_terms=rng.choice([1, 2, 2, 0, 2.0, None]),
               monotonicities=rng.choice([None, [0, 0], [1, 0], ["increasing", 1], [1], [-1, 0], (1, 1)]),
               output_min=b[0], output_max=b[1], clip_inputs=rng.choice([True, False]),
               dtype=rng.choice(["float32", "float32", "float64"]))
@@ -545,8 +617,8 @@ def make_layer(layer, cfg):
       kw["input_keypoints"] = np.array([0.0, 1.0, 2.5])
     return pl.PWLCalibration(**kw)
   if layer == "Linear":
-    if kw.get("normalization_order") == "inf":
-      kw["normalization_order"] = np.inf
+    if kw.get("normalization_order") in ("inf", "-inf"):
+      kw["normalization_order"] = np.inf if kw["normalization_order"] == "inf" else -np.inf
     return lin.Linear(**kw)
   if layer == "CategoricalCalibration":
     return cl.CategoricalCalibration(**kw)
@@ -562,6 +634,10 @@ def make_layer(layer, cfg):
 def layer_inputs(layer, cfg, rs, dtype):
   import tensorflow as tf
   units = cfg.get("units", 1)
+  if _bad_units(cfg):
+    units = 1       # a layer whose `units` is not a positive int is fed the single-unit shape
+  def _int(v, least):
+    return max(least, v) if isinstance(v, int) else least
   def shp(n):
     return (4, n) if units == 1 else (4, units, n)
   if layer in ("Lattice", "LatticeValid"):
@@ -583,7 +659,7 @@ def layer_inputs(layer, cfg, rs, dtype):
     return tf.constant(x)
   if layer == "KroneckerFactoredLattice":
     dims = len(cfg["monotonicities"]) if cfg.get("monotonicities") else 2
-    return tf.constant(rs.uniform(-0.25, 1.25, size=shp(dims)) * (max(2, cfg["lattice_sizes"]) - 1), dtype=dtype)
+    return tf.constant(rs.uniform(-0.25, 1.25, size=shp(dims)) * (_int(cfg["lattice_sizes"], 2) - 1), dtype=dtype)
   if layer == "RTL":
     s = max(2, cfg["lattice_size"]) - 1
     return {"unconstrained": tf.constant(rs.uniform(0, s, size=(4, 2)), dtype=dtype),
@@ -683,7 +759,7 @@ def check_layer(ctx, layer, cfg, seed, lines=None, pend=None):
                edgeworth_trusts=L.edgeworth_trusts, trapezoid_trusts=L.trapezoid_trusts,
                monotonic_dominances=L.monotonic_dominances, range_dominances=L.range_dominances,
                joint_monotonicities=L.joint_monotonicities, joint_unimodalities=None,
-               output_min=L.output_min, output_max=L.output_max)
+               output_min=L.output_min, output_max=L.output_max, num_projection_iterations=L.num_projection_iterations)
       ju = L.joint_unimodalities
       if ju is None or _ju_typed(ju) is not None:
         c["joint_unimodalities"] = _ju_typed(ju) if ju is not None else None
@@ -703,7 +779,46 @@ def check_layer(ctx, layer, cfg, seed, lines=None, pend=None):
     if line is not None:
       lines.append(line)
       pend.append((name, cfg, real, exc, msg))
+  # composition `Lattice.__init__` + `build` = constructor model, then LatticeConstraints of the WRAPPED arguments
+  # (Tfl.Verify.latticeBuild, from the RAW constructor arguments — not from the attributes of the real object)
+  if lines is not None and name == "Lattice":
+    bl = lattice_build_line(cfg)
+    if bl is not None:
+      lines.append(bl)
+      pend.append(("LatticeBuild", cfg, "accept" if stage not in ("ctor", "build") else TA.classify(e), exc, msg))
   return stage, info
+
+
+_KINIT_TOK = {"random_uniform_or_linear_initializer": "other", "linear_initializer": "linear_initializer",
+              "random_monotonic_initializer": "random_monotonic_initializer", "zeros": "uniform"}
+
+
+def lattice_build_line(cfg):
+  """`vfy.LatticeBuild` op of a generated Lattice configuration, or None when the configuration uses something the
+  model `latticeBuild` does not describe (custom regularisers; a `units` that is not a positive int: F-C16-af)."""
+  if cfg.get("kernel_regularizer") is not None or _bad_units(cfg):
+    return None
+  ju = cfg.get("joint_unimodalities")
+  if ju is None:
+    jt = None
+  elif isinstance(ju, list):
+    jt = ("list", [(list(p[0]), p[1]) for p in ju])
+  elif isinstance(ju, tuple) and len(ju) == 2:
+    jt = ("single", list(ju[0]), ju[1])
+  else:
+    return None
+  c = dict(lattice_sizes=cfg["lattice_sizes"], monotonicities=cfg["monotonicities"], unimodalities=cfg["unimodalities"],
+           joint_unimodalities=jt, output_min=cfg["output_min"], output_max=cfg["output_max"],
+           interpolation=cfg["interpolation"], kernel_initializer=_KINIT_TOK[cfg["kernel_initializer"]],
+           units=cfg["units"], num_projection_iterations=cfg["num_projection_iterations"],
+           edgeworth_trusts=cfg["edgeworth_trusts"], trapezoid_trusts=cfg["trapezoid_trusts"],
+           monotonic_dominances=cfg["monotonic_dominances"], range_dominances=cfg["range_dominances"],
+           joint_monotonicities=cfg["joint_monotonicities"])
+  spec = [s for s in TA.specs() if s.name == "Lattice"][0]
+  try:
+    return "vfy.LatticeBuild " + " ".join(spec.enc(c, "wire"))
+  except TypeError:
+    return None
 
 
 def _ju_typed(ju):
@@ -730,11 +845,54 @@ def run_layers(ctx):
       ctx.agree("build." + name)
     else:
       # a build that fails for a reason outside the constraints class (shapes, initialisers) is not a disagreement
-      if real != "accept" and rep == "0":
+      # (the constructor + build model `LatticeBuild` is compared strictly)
+      if real != "accept" and rep == "0" and name != "LatticeBuild":
         ctx.count("build:%s:rejected_outside_constraints" % name)
         ctx.agree("build." + name)
       else:
         ctx.disagree("build." + name, case, "%s (%s: %s)" % (real, exc, msg), rep, line)
+
+
+# ------------------------------------------------------------------ stream C1b: the first projection's use of normalization_order
+def run_norm_late(ctx):
+  """REAL `LinearConstraints(normalization_order=n)(w)` (constructor, then the first projection) vs the model
+  `Tfl.Verify.normLate` (the guard of `tf.norm`); oracle: an ACCEPTED order whose projection raises (F-C16-ah)."""
+  import tensorflow as tf
+  from tensorflow_lattice.python import linear_layer as lin
+  orders = list(TA.NORM) + [("val", 0.5), ("val", 7), ("val", -2.5), ("val", "inf"), ("val", (2,)), ("val", True)]
+  lines, pend = [], []
+  for n in orders:
+    mono = ctx.rng.choice([[1, 0], [1, 1, -1], [0, 0]])
+    w = tf.constant(np.asarray([[ctx.rng.randint(-8, 8) / 4.0] for _ in mono]), dtype=tf.float64)
+    cfg = dict(monotonicities=mono, normalization_order=n)
+    try:
+      c = lin.LinearConstraints(monotonicities=mono, normalization_order=TA.no_py(n))
+    except Exception as e:  # pylint: disable=broad-except
+      ctx.count("norm_late:ctor:" + type(e).__name__)
+      if not (isinstance(e, ValueError) and not isinstance(e, tf.errors.OpError)):
+        fail(ctx, "LinearConstraints", "ctor", type(e).__name__, cfg, exc_msg(e), extra="norm_late")
+      continue
+    try:
+      out = c(w).numpy()
+      real, exc, msg = "accept", "", ""
+    except Exception as e:  # pylint: disable=broad-except
+      real, exc, msg = TA.classify(e), type(e).__name__, exc_msg(e)
+      out = None
+    ctx.count("norm_late:%s:%s" % (n[0] if n[0] != "val" else type(n[1]).__name__, real))
+    ctx.case(sig=("norm_late", repr(n), real), nontrivial=real != "accept" or bool(TA.no_py(n)),
+             sample=dict(stream="norm_late", layer="LinearConstraints", cfg=repr(cfg), outcome=real))
+    lines.append("vfy.norm_late " + TA.no_wire(n))
+    pend.append((cfg, real, exc, msg))
+    if real != "accept":
+      fail(ctx, "LinearConstraints", "project", exc, cfg, msg, extra="norm_late")
+    elif not np.all(np.isfinite(out)):
+      fail(ctx, "LinearConstraints", "nonfinite", "nonfinite", cfg, "non-finite projected weights", extra="norm_late")
+  for (cfg, real, exc, msg), rep, line in zip(pend, run_driver(lines), lines):
+    if rep == str(TA.OUTCOMES.index(real)):
+      ctx.agree("late.normalization_order")
+    else:
+      ctx.disagree("late.normalization_order", dict(stream="norm_late", layer="LinearConstraints", cfg=repr(cfg)),
+                   "%s (%s: %s)" % (real, exc, msg), rep, line)
 
 
 # ------------------------------------------------------------------ stream C2: lattice regularisers called directly
@@ -802,6 +960,17 @@ def syn_pairs(rng):
               dict(lb, monotonicities=[-1, -1, -1], input_min=[0.0, None, None])))
   kb = dict(lattice_sizes=3, units=1, num_terms=2, dtype="float32")
   out.append(("KroneckerFactoredLattice", dict(kb, monotonicities=["increasing", "none"]), dict(kb, monotonicities=[1, 0])))
+  out.append(("KroneckerFactoredLattice", dict(kb, monotonicities=("none", "increasing", "increasing"), output_min=0.0, output_max=1.0),
+              dict(kb, monotonicities=[0, 1, 1], output_min=0.0, output_max=1.0)))
+  # categorical pairs: tuples / lists (verifyCategorical_syn), bools are the ints they equal
+  cb = dict(num_buckets=4, units=rng.choice([1, 2]), output_min=0.0, output_max=1.0, kernel_initializer="zeros", dtype="float64")
+  out.append(("CategoricalCalibration", dict(cb, monotonicities=[(0, 1), (1, 3), (0, 2)]), dict(cb, monotonicities=[[0, 1], [1, 3], [0, 2]])))
+  out.append(("CategoricalCalibration", dict(cb, monotonicities=[(False, True), (1, 2)]), dict(cb, monotonicities=[[0, 1], (1, 2)])))
+  # RTL: one custom regulariser as a flat list / a list holding the tuple / a list holding the list (rtlLayer_syn)
+  rb = dict(num_lattices=2, lattice_rank=2, lattice_size=2, random_seed=rng.choice([3, 42]), kernel_initializer="linear_initializer",
+            dtype="float32")
+  out.append(("RTL", dict(rb, kernel_regularizer=["torsion", 0.1, 0.2]), dict(rb, kernel_regularizer=[("torsion", 0.1, 0.2)])))
+  out.append(("RTL", dict(rb, kernel_regularizer=[["laplacian", 0.1, 0.0]]), dict(rb, kernel_regularizer=[("laplacian", 0.1, 0.0)])))
   return out
 
 
@@ -864,7 +1033,7 @@ def run_must_reject(ctx):
   monotonicity pairs (cycle detection in the categorical partial
   order is an anchored mechanism of the property: a 2-cycle, a self pair, a k-cycle in any rotation, a
   cycle behind a root or in front of a tail, with repeated pairs), and the configurations whose late
-  failure was repaired by f7753e0 / f995047 / 4a8f232: a joint unimodality with a dimension outside the
+  failure was repaired by f7753e0 / f995047 / 4a8f232 / 18dd711 (a dominance or joint monotonicity naming one dimension twice): a joint unimodality with a dimension outside the
   lattice or with repeated dimensions, Linear input bounds of the wrong length or crossed on a layer
   without any constraint; by 2ef7ec2 / 1f0b06a / 93797fc / 76984f9 / e215d06 / b6fcc7a: circular Linear dominance sets,
   a range dominance on features with monotonicity None, empty lattice_sizes, num_buckets < 1, non-positive list
@@ -903,6 +1072,11 @@ def run_must_reject(ctx):
         ("Lattice", "dominance-free-feature", lat(monotonicities=mono_free, monotonic_dominances=[(d, e)])),
         ("Lattice", "range-dominance-free-feature", lat(monotonicities=mono_free, range_dominances=[(e, d)])),
         ("Lattice", "min>max", lat(output_min=1.0, output_max=rng.choice([0.0, 0.5]))),
+        # fix 18dd711: a dominance / joint monotonicity naming one dimension twice
+        ("Lattice", "dominance-same-dimension", lat(**{rng.choice(["monotonic_dominances", "range_dominances",
+                                                                   "joint_monotonicities"]): [(d, d)]})),
+        ("LatticeConstraints", "dominance-same-dimension",
+         lat(**{rng.choice(["monotonic_dominances", "range_dominances", "joint_monotonicities"]): [(d, e), (e, e)]})),
         ("LatticeConstraints", "self-trust", lat(**{trust_kind: [(d, d, direction)]})),
         ("LatticeConstraints", "monotone+unimodal", lat(lattice_sizes=sizes3, unimodalities=uni)),
     ]
@@ -1255,6 +1429,7 @@ def run(ctx):
   run_tables(ctx)
   run_canon(ctx)
   run_layers(ctx)
+  run_norm_late(ctx)
   run_regularizers(ctx)
   for layer, ca, cb in syn_pairs(ctx.rng):
     for _ in range(ctx.n(2, 20)):
@@ -1273,6 +1448,9 @@ def replay(ctx, failure):
   if stream == "canon":
     run_canon(ctx)
     return
+  if stream == "norm_late":
+    run_norm_late(ctx)
+    return
   if stream == "must_reject":
     run_must_reject(ctx)
     return
@@ -1286,6 +1464,8 @@ def replay(ctx, failure):
   cfg = ast.literal_eval(case["cfg"])
   if stream == "table":
     spec = [s for s in TA.specs() if s.name == case["layer"]][0]
+    for a, _ in spec.args:      # recorded before the table gained an argument: that argument at its baseline value
+      cfg.setdefault(a, spec.baselines[0][a])
     outc, exc, msg = TA.evaluate(spec, cfg)
     rep = run_driver(["vfy.%s %s" % (spec.name, " ".join(spec.enc(cfg, "wire")))])[0]
     check_table_row(ctx, spec, cfg, outc, exc, msg, rep, "")
